@@ -1,0 +1,33 @@
+//go:build verif
+
+package engine
+
+import "io"
+
+// VerifNewInputStream creates an input stream over a host-provided reader with the given
+// type and eof_action ("error", "eof_code" or anything else for the default "reset").
+// Observation/constructor hook for the /verif harness; it only sets fields that open/4 can set too.
+func VerifNewInputStream(r io.Reader, binary bool, eofAction string) *Stream {
+	s := NewInputTextStream(r)
+	if binary {
+		s = NewInputBinaryStream(r)
+	}
+	switch eofAction {
+	case "error":
+		s.eofAction = eofActionError
+	case "eof_code":
+		s.eofAction = eofActionEOFCode
+	default:
+		s.eofAction = eofActionReset
+	}
+	return s
+}
+
+// VerifStreamState reports the bookkeeping fields of an input stream: position, end_of_stream
+// as an atom name, the size of the last rune read and the number of buffered bytes.
+func VerifStreamState(s *Stream) (position int64, endOfStream string, lastRuneSize int, buffered int) {
+	if s.buf != (bufReader{}) {
+		buffered = s.buf.Buffered()
+	}
+	return s.position, s.endOfStream.Term().(Atom).String(), s.lastRuneSize, buffered
+}
